@@ -20,8 +20,21 @@
           | 10 maddr res victims:[maddr]           dial_address; res 0 = connection established, k+1 = DialFailure of kind k
           | 11 maddr                               PublicAddresses::add_address
           | 12 maddr                               PublicAddresses::remove_address
+          | 13 peer [maddr] order:[maddr] victims:[maddr]  TransportService::add_known_address: the service
+                                                   appends /p2p/<peer> to every address that does not end in
+                                                   a peer id and hands the set to the manager's handle (op 0
+                                                   on the prepared addresses)
    ([x] is a count-prefixed list.) The harness build has the websocket feature compiled in
-   and quic compiled out; cases with other feature flags are not well-formed. *)
+   and quic compiled out; cases with other feature flags are not well-formed.
+
+   Litep2p-level case (first number 2):  2 nk <case as above>
+   whose operations are: nk add_known_address operations (Litep2pConfig::known_addresses, in order),
+   then register_listen_address operations (the listen addresses of the configured TCP / WebSocket
+   transports: /ip4/<loopback>/tcp/P[/ws]), then add_known_address operations
+   (Litep2p::add_known_address). Litep2p::new registers the listen addresses of the transports
+   first and adds the configured known addresses afterwards; the first observation is made when
+   new() returns:
+   trace := 2 listen-set store(peer 0) .. store(peer 7) bad  then one add record per later operation. *)
 From Coq Require Import List NArith ZArith Bool.
 From V.common Require Import Wire.
 From V.C10 Require Import Model.
@@ -92,6 +105,10 @@ Definition p_comp : parser comp :=
 Definition p_maddr : parser maddr :=
   plistb (N.of_nat MAXCOMPS + 1) p_comp.
 
+(* in traces: one component more (a peer id appended to an address of full length) *)
+Definition p_maddr_t : parser maddr :=
+  plistb (N.of_nat MAXCOMPS + 2) p_comp.
+
 Definition enc_maddr (a : maddr) : list N := enc_list enc_comp a.
 
 Definition p_victim : parser (option maddr) :=
@@ -143,6 +160,9 @@ Definition p_op : parser op :=
           end
   | 11 => let* a := p_maddr in pret (OPublicAdd a)
   | 12 => let* a := p_maddr in pret (OPublicRemove a)
+  | 13 => let* p := p_peer in let* l := plistb 1000 p_maddr in let* o := plistb 1000 p_maddr in
+          let* vs := plistb 1000 p_maddr in
+          pret (OAdd p (ts_prepare p l) o vs)
   | _ => pfail
   end.
 
@@ -241,16 +261,99 @@ Fixpoint run_trace (c : cfg) (st : state) (h : list op) : list N :=
   | o :: t => let '(st1, r) := step c K st o in enc_out c o st1 r ++ run_trace c st1 t
   end.
 
-Definition run_case (l : list N) : list N :=
-  match decode_case l with
-  | Some (c, h) => 1 :: run_trace c init h
+(* ---------- Litep2p-level cases ---------- *)
+
+Definition is_add (o : op) : bool := match o with OAdd _ _ _ _ => true | _ => false end.
+Definition is_listen (o : op) : bool := match o with OListen _ => true | _ => false end.
+
+Fixpoint span_listen (h : list op) : list maddr * list op :=
+  match h with
+  | OListen a :: t => let '(ls, r) := span_listen t in (a :: ls, r)
+  | _ => ([], h)
+  end.
+
+Definition LP_PORTS : N := 10000.
+Definition comp_port_ok (x : comp) : bool :=
+  match x with Tcp p | Udp p => p <? LP_PORTS | _ => true end.
+Definition op_ports_ok (o : op) : bool :=
+  match o with
+  | OAdd _ l _ _ => forallb (forallb comp_port_ok) l
+  | OListen a => forallb comp_port_ok a
+  | _ => true
+  end.
+
+(* a listen address the harness can bind: a loopback IPv4 address, for an enabled transport *)
+Definition lp_listen_ok (c : cfg) (a : maddr) : bool :=
+  match a with
+  | [Ip4 Loop _; Tcp _] => en_tcp c
+  | [Ip4 Loop _; Tcp _; Ws] => en_ws c
+  | _ => false
+  end.
+(* the socket a listen address binds *)
+Definition lp_socket (a : maddr) : N * N :=
+  match a with Ip4 _ i :: Tcp p :: _ => (i, p) | _ => (0, 0) end.
+Fixpoint nodup_pairs (l : list (N * N)) : bool :=
+  match l with
+  | [] => true
+  | (a, b) :: t => negb (existsb (fun y => (fst y =? a) && (snd y =? b)) t) && nodup_pairs t
+  end.
+
+Definition PEERS : list N := [0; 1; 2; 3; 4; 5; 6; 7].
+
+Definition decode_lp (l : list N) : option (cfg * list op * list maddr * list op) :=
+  match l with
+  | nk :: rest =>
+      match decode_case rest with
+      | Some (c, h) =>
+          let nk' := N.to_nat nk in
+          let known := firstn nk' h in
+          let '(ls, ops) := span_listen (skipn nk' h) in
+          if (nk' <=? length h)%nat && forallb is_add known && forallb is_add ops &&
+             forallb op_ports_ok h && forallb (lp_listen_ok c) ls &&
+             nodup_pairs (map lp_socket ls) &&
+             (en_tcp c || en_ws c) && match max_out c with None => true | Some _ => false end
+          then Some (c, known, ls, ops) else None
+      | None => None
+      end
+  | [] => None
+  end.
+
+Definition lp_listened (ls : list maddr) : state := mkState [] ls 0 [].
+
+Fixpoint any_bad (rs : list out) : bool :=
+  match rs with
+  | [] => false
+  | RAdd _ b :: t => b || any_bad t
+  | _ :: t => any_bad t
+  end.
+
+(* Litep2p::new: the transports register their listen addresses, then the configured known
+   addresses are added; afterwards Litep2p::add_known_address *)
+Definition run_lp (l : list N) : list N :=
+  match decode_lp l with
+  | Some (c, known, ls, ops) =>
+      let st1 := lp_listened ls in
+      let '(st2, rs) := run c K st1 known in
+      [2] ++ dump_addrs (dedup (listen_set c ls)) ++
+      flat_map (fun p => dump (get_or_empty p (bk st2))) PEERS ++ [b2n (any_bad rs)] ++
+      run_trace c st2 ops
   | None => [0]
+  end.
+
+Definition run_case (l : list N) : list N :=
+  match l with
+  | 2 :: rest => run_lp rest
+  | _ =>
+      match decode_case l with
+      | Some (c, h) => 1 :: run_trace c init h
+      | None => [0]
+      end
   end.
 
 (* ---------- decoding a trace ---------- *)
 
 Definition p_entry : parser (maddr * Z) :=
-  let* a := p_maddr in let* z := pN in pret (a, dec_score z).
+  let* a := p_maddr_t in let* z := pN in pret (a, dec_score z).
 Definition p_store : parser store := plistb 100000 p_entry.
 
 Definition p_host : parser host :=
@@ -292,7 +395,7 @@ Definition p_obs : parser obs :=
          if f =? 0 then let* l := p_store in pret (BAddrs (Some l)) else pret (BAddrs None)
   | 4 => let* sup := pBool in let* rt := pN in let* a := p_parsed in let* b := p_parsed in
          pret (BProbe sup rt a b)
-  | 5 => let* l := plistb 100000 p_maddr in pret (BListen l)
+  | 5 => let* l := plistb 100000 p_maddr_t in pret (BListen l)
   | 6 => let* n := pN in if n <? 1000 then pret (BHold (N.to_nat n)) else pfail
   | 7 => let* code := pN in
          if code =? 0 then
@@ -302,8 +405,8 @@ Definition p_obs : parser obs :=
           let* _ := (if code =? 0 then (let* _ := pN in pN) else pret 0) in
           let* _ := pN in
           pret (BDialAddr code None)
-  | 11 => let* code := pN in let* l := plistb 100000 p_maddr in pret (BPub code l)
-  | 12 => let* b := pBool in let* l := plistb 100000 p_maddr in pret (BPubRemoved b l)
+  | 11 => let* code := pN in let* l := plistb 100000 p_maddr_t in pret (BPub code l)
+  | 12 => let* b := pBool in let* l := plistb 100000 p_maddr_t in pret (BPubRemoved b l)
   | _ => pfail
   end.
 
@@ -411,13 +514,13 @@ Definition outcome_ok (k : scorecfg) (s s' : store) (won : option maddr) (failed
              end) s.
 
 (* dial_address: attributable and dialable by an enabled transport (the host may be unspecified),
-   not literally a listen address *)
+   not a listen address of the node (literally, or with the /p2p suffix taken off) *)
 Definition parsed_weak (r : option parsed) (peer : N) : bool :=
   match r with Some (_, _, Some q) => q =? peer | _ => false end.
 Definition dial_ok_weak (c : cfg) (ls : list maddr) (peer : N) (a : maddr) : bool :=
   names peer a &&
   existsb (fun t => enabled c t && parsed_weak (parse t a) peer) [TTcp; TWs; TQuic] &&
-  negb (existsb (maddr_eqb a) (listen_set c ls)).
+  negb (own_listen c ls a).
 
 Definition set_eqb (l1 l2 : list maddr) : bool :=
   nodup_addrs l1 && nodup_addrs l2 &&
@@ -575,7 +678,7 @@ Fixpoint steps_ok (c : cfg) (k : scorecfg) (st : ostate) (h : list op) : parser 
 
 (* prop_ok case trace: the trace (as printed by the implementation or by run_case) satisfies
    the property on this case. After a failed step the rest of the trace is not looked at. *)
-Definition prop_ok (case trace : list N) : bool :=
+Definition prop_std (case trace : list N) : bool :=
   match decode_case case, trace with
   | Some (c, h), 1 :: body =>
       match steps_ok c K (mkO [] [] 0 []) h body with
@@ -584,6 +687,48 @@ Definition prop_ok (case trace : list N) : bool :=
       end
   | None, [0] => true
   | _, _ => false
+  end.
+
+(* Litep2p-level: when new() returns, the listen set is the configured one and every remembered
+   address was offered for that peer in the configuration, names it, is dialable by an enabled
+   transport and is not local with respect to the node's listen addresses; the bound holds.
+   Later additions are judged like add_known_address operations. *)
+Definition offered_for (p : N) (known : list op) : list maddr :=
+  flat_map (fun o => match o with OAdd q l _ _ => if q =? p then l else [] | _ => [] end) known.
+
+Definition config_store_ok (c : cfg) (k : scorecfg) (ls : list maddr) (known : list op) (p : N) (s : store) : bool :=
+  store_ok k s &&
+  forallb (fun x => existsb (fun a => maddr_eqb (with_peer p a) (fst x)) (offered_for p known) &&
+                    dial_ok c p (fst x) && negb (is_local c ls (fst x))) s.
+
+Fixpoint p_stores (ps : list N) : parser (list (N * store)) :=
+  match ps with
+  | [] => pret []
+  | p :: t => let* s := p_store in let* r := p_stores t in pret ((p, s) :: r)
+  end.
+
+Definition prop_lp (case trace : list N) : bool :=
+  match decode_lp case, trace with
+  | Some (c, known, ls, ops), 2 :: body =>
+      match (let* l := plistb 100000 p_maddr_t in let* b := p_stores PEERS in let* _ := pN in
+             pret (l, b)) body with
+      | Some ((l, b), rest) =>
+          set_eqb l (dedup (listen_set c ls)) &&
+          forallb (fun ps => config_store_ok c K ls known (fst ps) (snd ps)) b &&
+          match steps_ok c K (mkO b ls 0 []) ops rest with
+          | Some (ok, rest') => if ok then match rest' with [] => true | _ => false end else false
+          | None => false
+          end
+      | None => false
+      end
+  | None, [0] => true
+  | _, _ => false
+  end.
+
+Definition prop_ok (case trace : list N) : bool :=
+  match case with
+  | 2 :: rest => prop_lp rest trace
+  | _ => prop_std case trace
   end.
 
 (* No known-finding classes for C10: every failing case is a violation. *)
